@@ -98,7 +98,7 @@ kf("K7-C10", "P1 paren-removal-fuses-literal", "C10", r"^C10\|literal-changed\|(
 
 # --------------------------------------------------------------------------- K8: convergence classes
 E = "a node that always breaks (code block with two statements or with a comment, an import list at width 0, a table) inside a context where line breaks are suppressed (a line of text, an equation): the first pass emits the hard breaks inside an otherwise flat layout, the second pass then sees a multi-line source and lays the surroundings out differently (converges after two passes)"
-kf("K8a-C03", "E forced-break-under-suppression", "C03", r"^C03\|not-idempotent\|spine=(mixed|math_i|math_b|math_hash|item|heading|strong)/.*(block2_semi|block2_ml|import\w*|table\w*|grid\w*)\|size=", "foo #({a; b},) bar", E, "not-idempotent")
+kf("K8a-C03", "E forced-break-under-suppression", "C03", r"^C03\|not-idempotent\|spine=(mixed|math_i|math_b|math_hash|item|heading|strong)/[^|]*(block2_semi|block2_ml|import\w*|table\w*|grid\w*)[^|]*\|size=", "foo #({a; b},) bar", E, "not-idempotent")
 kf("K8a2-C03", "E forced-break-under-suppression (text line built by a production)", "C03", r"^C03\|not-idempotent\|spine=(doc/(hash_text|hash_tight|text_hash)(@\d)?|hash/[^/|]+)/[^|]*(block2_semi|block2_ml|import\w*|table\w*|grid\w*)\|size=", "#if a { import \"m.typ\": a } foo", E + " - here the text line comes from a production (code followed by text on the same line; in markup a binary operator after an embedded expression is text)", "not-idempotent")
 kf("K8k-C03", "E forced-break-under-suppression (with a deviation elsewhere)", "C03", r"^C03\|not-idempotent\|dev=.*\|at=(mixed|math_i|math_b|math_hash|hash|item|heading|strong|let|arg|doc)/.*(block2_semi|block2_ml)", "#if a { {b; c} } elseif d { e }", E, "not-idempotent")
 kf("K6-C03", "D5 list-after-bracket-unbreakable", "C03", r"^C03\|not-idempotent\|(spine|dev=.*\|at)=(mixed|strong|heading|item)/content\w*@0/(list|enum|term)\w*", "foo #[- foo\n- bar] bar", D5 + " - with tab width 8 the first pass nests the second item and the second pass nests it further", "not-idempotent")
@@ -109,6 +109,7 @@ kf("K8d-C03", "H asymmetric content block edge", "C03", r"^C03\|not-idempotent\|
 kf("K8d2-C03", "H asymmetric content block edge (heading)", "C03", r"^C03\|not-idempotent\|extra=prose:block_heading_sp:", "#[= #g(a, b) ]", "a heading inside a content block, followed by a blank before ']', whose content breaks at a narrow width: the first pass keeps the blank as a space, the second pass sees a multi-line source and turns it into a line break", "not-idempotent")
 kf("K8d3-C03", "H asymmetric content block edge (comment at the edge)", "C03", r"^C03\|not-idempotent\|extra=prose:(block|call_trailing|if_block|in_code|nested|emph|strong):(/\*c\*/_.*|.*_/\*c\*/)$", "#[#g(a, b) /*c*/]", "a block comment at the inner edge of a content block (or strong / emph body) whose other content breaks at a narrow width: the first pass prints a blank between the comment and the closing delimiter, the second pass reads that as a blank at one edge only and breaks there", "not-idempotent")
 kf("K8e-C03", "P12 heading with line comment", "C03", r"^C03\|not-idempotent\|(.*&)?dev=markup:[\w-]*>(Heading|Markup)\[HeadingMarker\^\w+\]:(lc|lc_sp|lc_lc|nl_lc|off_lc|off_reason)", "=//c1\nfoo", "a line comment directly after a heading marker gains a space on the second pass", "not-idempotent")
+kf("K8e2-C03", "P12 heading with line comment (a '=' that starts a line)", "C03", r"^C03\|not-idempotent\|dev=\w+:[^|&]*\[\w+\^(Eq|EqEq|Text)\]:(nl|nl2|nl4|lc|nl_lc|lc_sp|cr|crlf)&dev=\w+:[^|&]*\[(Eq|EqEq|Text)\^\w+\]:(lc|lc_sp|lc_lc|nl_lc|off_lc|off_reason|bc|bc_sp)[|&]", "#let p\n=//c3\na", "a line break before '=' ends the embedded statement, the '=' that now starts a line is a heading marker, and the comment directly after it gains a space on the second pass (same class as K8e)", "not-idempotent")
 kf("K8f-C03", "adjacent comments after a chain operator", "C03", r"^C03\|not-idempotent\|(.*&)?dev=\w+:\w+>(Binary\[\w+\^\w+\]|FieldAccess\[Dot\^Ident\]):bc_bc", "#let v = a + b +/*c1*//*c2*/c", "two adjacent block comments after an operator of a broken binary chain (or after the dot of a broken method chain) are printed tight by the first pass and spaced by the second", "not-idempotent")
 kf("K8h-C03", "E / comment between call parts", "C03", r"^C03\|not-idempotent\|(.*&)?dev=markup:\w+>(FuncCall\[Ident\^LeftParen\]|Args\[RightParen\^LeftBracket\]):(bc|bc_sp|bc_ml|bc_star|bc_bc|sp|off_bc|off_tight|off_mid|bc_ws_line|bc_blank|bc_tab|bc_uni).*\|at=.*(block2_semi|block2_ml|import\w*|table\w*|grid\w*)", "#a({b; c})/*c1*/[foo]", "a comment (or blank) between the parts of a call whose argument holds a node that always breaks: " + E, "not-idempotent")
 kf("K8i-C03", "comment before ')' of a parenthesised import list", "C03", r"^C03\|not-idempotent\|(.*&)?dev=code:\w+>ModuleImport\[Ident\^RightParen\]:(bc|bc_sp|bc_ml|bc_star|bc_bc|off_bc|off_tight|off_mid|bc_ws_line|bc_blank|bc_tab|bc_uni)", "#{import \"m.typ\": (b, a/*c1*/)}", "a block comment before the closing parenthesis of an import list inside a code block: the first pass drops the parentheses and keeps the block on one line, the second pass breaks the block", "not-idempotent")
